@@ -105,3 +105,61 @@ theorem C13_reports_exact (s s' : SyncTest) (r : Except GgrsError (List Request)
   advanceFrame_reports s s' r h
 
 end Ggrs
+
+namespace Ggrs
+
+/-- **C13, detection at the next call (every state).** Whatever the game is: if, when `advance_frame` is
+called past the warm-up (`check_distance > 0`, `current_frame > check_distance`), some frame `f`
+of the comparison window `current − check_distance ..= current` has been saved again with a
+checksum different from the one remembered for it — which is what a re-simulation of `f` with a
+different result leaves behind — then this very call returns `MismatchedChecksum`, and the frames
+it names are exactly the frames of the window in that situation, in ascending order, `f` among
+them (so its first entry is the first affected frame still in the window). A frame first simulated
+by call `k` is re-simulated and re-saved by each of the next `check_distance` calls and stays in the
+window for `check_distance + 1` calls, so a step whose result changes between simulations is
+reported at the call after the re-simulation that exposes it: within `check_distance + 2` calls of
+the frame's first simulation (that last step is about the request pattern, `C13_no_false_alarm`'s
+world; it is decided on traces for non-deterministic games). -/
+theorem C13_detects (s s' : SyncTest) (r : Except GgrsError (List Request)) (h : s.advanceFrame = .ok (s', r))
+    (hcd : s.checkDistance > 0) (hcur : s.sync.currentFrame > (s.checkDistance : Int))
+    (f : Frame) (hlo : s.sync.currentFrame - (s.checkDistance : Int) ≤ f) (hhi : f ≤ s.sync.currentFrame)
+    (hcell : (rget s.sync.cells (frameIdx f s.sync.cells.length)).frame = f)
+    (c1 : Option Nat) (hhist : alookup f s.checksumHistory = some c1)
+    (hne : c1 ≠ (rget s.sync.cells (frameIdx f s.sync.cells.length)).checksum) :
+    r = .error (.mismatchedChecksum s.sync.currentFrame (stReported s)) ∧ f ∈ stReported s ∧
+      ∀ g, g ∈ stReported s → stMismatch s g = true := by
+  have hmis : stMismatch s f = true := by
+    unfold stMismatch
+    simp only
+    have hl : alookup f (stPruned s) = some c1 := by
+      unfold stPruned
+      rw [alookup_prune, if_pos hlo]; exact hhist
+    rw [hl]
+    simp only [hcell, beq_self_eq_true, Bool.true_and, Bool.not_eq_true']
+    cases hb : (c1 == (rget s.sync.cells (frameIdx f s.sync.cells.length)).checksum) with
+    | false => rfl
+    | true => exact absurd (by simpa using hb) hne
+  have hmem : f ∈ stReported s := by
+    unfold stReported
+    rw [List.mem_filterMap]
+    refine ⟨(f - (s.sync.currentFrame - (s.checkDistance : Int))).toNat, ?_, ?_⟩
+    · rw [List.mem_range]; omega
+    · have e : s.sync.currentFrame - (s.checkDistance : Int) +
+          ((0 + (f - (s.sync.currentFrame - (s.checkDistance : Int))).toNat : Nat) : Int) = f := by omega
+      rw [e, hmis]; rfl
+  have hall : ∀ g, g ∈ stReported s → stMismatch s g = true := by
+    intro g hg
+    unfold stReported at hg
+    rw [List.mem_filterMap] at hg
+    obtain ⟨j, _, hj⟩ := hg
+    split at hj
+    · rename_i hm
+      cases hj
+      exact hm
+    · cases hj
+  have hgate : (decide (s.checkDistance > 0) && decide (s.sync.currentFrame > (s.checkDistance : Int))) = true := by
+    simp [hcd, hcur]
+  exact ⟨(C13_reports_exact s s' r h).1 ⟨hgate, fun he => by rw [he] at hmem; cases hmem⟩, hmem, hall⟩
+
+end Ggrs
+
